@@ -147,7 +147,7 @@ func c09_10(c *core.Ctx, p *core.Prog) {
 					continue
 				}
 				usesCount := core.DerivesFrom(iff.Cond, isLoadValue(cs))
-				usesAmount := core.DerivesFrom(iff.Cond, func(v ssa.Value) bool { return v == amount })
+				usesAmount := core.DerivesFrom(iff.Cond, func(v ssa.Value) bool { return sameQty(v, amount) })
 				if usesCount && usesAmount {
 					guarded = true
 				}
@@ -160,6 +160,21 @@ func c09_10(c *core.Ctx, p *core.Prog) {
 			"every removal is added to the running count, with the quantity the capacity test used",
 			"split accounting: "+bad+" — later elements are admitted against a wrong count, so the fragment can exceed the requested size and the items reported as sent drift from the content")
 	}
+}
+
+// sameQty: the same SSA value, or two loads of the same local cell (a variable
+// that a nested closure captures lives in a cell and is re-loaded at each use).
+func sameQty(a, b ssa.Value) bool {
+	if a == b {
+		return true
+	}
+	la, ok1 := a.(*ssa.UnOp)
+	lb, ok2 := b.(*ssa.UnOp)
+	if !ok1 || !ok2 || la.Op != token.MUL || lb.Op != token.MUL {
+		return false
+	}
+	ca, cb := cellOf(la.X), cellOf(lb.X)
+	return ca != nil && ca == cb
 }
 
 func isLoadValue(cs map[ssa.Value]bool) func(ssa.Value) bool {
